@@ -45,6 +45,27 @@ CLAIMS = {
             "feeding every printed phrase back to `address`, and under an LD_PRELOAD getentropy shim the exact phrase is "
             "compared with an independent oracle.",
             "std::thread/mpsc semantics (a received message was sent by a worker), clap parsing, the shim; termination of the search is not claimed."),
+    "C04": ("Coq theorems (Props/C04.v: a 32-byte secret is accepted iff 1 <= value < n and is then exactly that integer; other lengths are "
+            "refused or denote the same big-endian integer, never another key; the length table; secret round trip; 65-byte 0x04||X||Y "
+            "shape; address = last 20 bytes of keccak(X||Y); EIP-55 display: lower-cased it is the hex of the address and a letter is "
+            "upper case iff its Keccak nibble >= 8; totality) with Keccak and point multiplication opaque; model (instantiated with "
+            "the Gallina Keccak/secp256k1) vs PrivateKey/Address on every run, plus an independent Python secp256k1/Keccak/EIP-55.",
+            "Keccak-256 and secp256k1 are executable Gallina re-implementations (Prim/), validated by vectors and differentially, not "
+            "verified; hypotheses |pubkey65 k| = 65, head byte 0x04, |keccak x| = 32 are stated in the theorems; elliptic-curve "
+            "SecretKey::from_slice and ethaddr checksum semantics assumed."),
+    "C10": ("Coq theorems (Props/C10.v: digest m = keccak(0x19 || \"Ethereum Signed Message:\\n\" || decimal |m| || m) for every byte "
+            "list and every keccak; the 26 prefix bytes; the decimal length is canonical (digits only, no leading zero, parses back) "
+            "with exactly k digits for 10^(k-1) <= n < 10^k; the framing is injective: equal preimages imply equal messages); model vs "
+            "EthereumMessage::signing_message on every length 0..1100, powers of ten +-1 and all single bytes on every run, plus "
+            "`hash message` through file and stdin.",
+            "Keccak-256 is an executable Gallina re-implementation validated by vectors/differentially, opaque to the theorems."),
+    "C20": ("Coq theorems (Props/C20.v: verify_domain ms = Ok <-> ms is a non-empty order-preserving sub-sequence of the five standard "
+            "(name, type) pairs — by induction over arbitrary member lists; exactly 31 accepted lists (enumerated, NoDup); repeated, "
+            "reordered, unknown or re-typed fields and a missing EIP712Domain are refused; the member type grammar parses every "
+            "printed well-formed kind back (arbitrarily many array suffixes), 100 sized atoms tabulated, fuel never exhausted); model "
+            "vs the library on all 326 duplicate-free orderings (exhaustive) and on substituted/foreign/repeated fields on every run.",
+            "serde derive / HashMap lookup semantics assumed; char::is_numeric table extracted from the toolchain (proved irrelevant "
+            "to parse results for non-ASCII entries)."),
     "C07": ("Coq theorems (Props/C07.v: the code-shaped rlp::{len,bytes,uint,list} equal the Yellow-Paper encoder, the u8 header "
             "arithmetic never overflows, strict-decoder round trip dec(enc i ++ rest) = (i, rest) for every item tree, the strict "
             "decoder accepts only canonical encodings, injectivity / prefix-freeness, minimal integers) for unbounded payloads; "
